@@ -44,6 +44,13 @@ type env struct {
 	dead       bool           // too many of them: the remaining calls are skipped (counted)
 	lastNever  bool           // the last call never returned / was skipped (its loss is already reported)
 	control    controlFn      // see bounded.go
+
+	// registration histories (history.go)
+	reg        registrar       // the registration API of the current server
+	populate   func(registrar) // non-nil: connect() registers this instead of the fixed fixtures
+	histInput  func() any      // non-nil: what a report says the server holds (the history so far)
+	promptName string          // prompt to get ("" = echo)
+	rawSession string          // session id of the raw POST peer (resources/templates/list has no client method)
 }
 
 const (
@@ -62,6 +69,9 @@ type registrar struct {
 	prompt    func(*mcp.Prompt, promptHT)
 	resource  func(*mcp.Resource, resHT)
 	resources func(*mcp.Resource, ressHT)
+	// (history.go) the rest of the registration API the three server kinds share
+	unregTools func(names ...string) error
+	template   func(*mcp.ResourceTemplate, ressHT)
 }
 
 func newEnv(c *hk.Ctx, mode string) *env {
@@ -108,10 +118,12 @@ func (e *env) connect() error {
 		stdio = s
 		e.closeSrv = func() {}
 		reg = registrar{
-			tool:      func(t *mcp.Tool, h handlerT) { s.RegisterTool(t, h) },
-			prompt:    func(p *mcp.Prompt, h promptHT) { s.RegisterPrompt(p, h) },
-			resource:  func(r *mcp.Resource, h resHT) { s.RegisterResource(r, h) },
-			resources: func(r *mcp.Resource, h ressHT) { s.RegisterResources(r, h) },
+			tool:       func(t *mcp.Tool, h handlerT) { s.RegisterTool(t, h) },
+			prompt:     func(p *mcp.Prompt, h promptHT) { s.RegisterPrompt(p, h) },
+			resource:   func(r *mcp.Resource, h resHT) { s.RegisterResource(r, h) },
+			resources:  func(r *mcp.Resource, h ressHT) { s.RegisterResources(r, h) },
+			unregTools: func(names ...string) error { return s.UnregisterTools(names...) },
+			template:   func(t *mcp.ResourceTemplate, h ressHT) { s.RegisterResourceTemplate(t, h) },
 		}
 	} else if mode == "legacy-sse" {
 		s := mcp.NewSSEServer("verif-server", "1.2.3", mcp.WithSSEServerLogger(hk.QuietLogger{}), mcp.WithSSEEndpoint("/sse"),
@@ -122,10 +134,12 @@ func (e *env) connect() error {
 		e.closeSrv = func() { ts.CloseClientConnections(); ts.Close() }
 		url = ts.URL + "/sse"
 		reg = registrar{
-			tool:      func(t *mcp.Tool, h handlerT) { s.RegisterTool(t, h) },
-			prompt:    func(p *mcp.Prompt, h promptHT) { s.RegisterPrompt(p, h) },
-			resource:  func(r *mcp.Resource, h resHT) { s.RegisterResource(r, h) },
-			resources: func(r *mcp.Resource, h ressHT) { s.RegisterResources(r, h) },
+			tool:       func(t *mcp.Tool, h handlerT) { s.RegisterTool(t, h) },
+			prompt:     func(p *mcp.Prompt, h promptHT) { s.RegisterPrompt(p, h) },
+			resource:   func(r *mcp.Resource, h resHT) { s.RegisterResource(r, h) },
+			resources:  func(r *mcp.Resource, h ressHT) { s.RegisterResources(r, h) },
+			unregTools: func(names ...string) error { return s.UnregisterTools(names...) },
+			template:   func(t *mcp.ResourceTemplate, h ressHT) { s.RegisterResourceTemplate(t, h) },
 		}
 	} else {
 		srvMode := "stateful"
@@ -137,11 +151,20 @@ func (e *env) connect() error {
 		e.closeSrv = e.fx.Close
 		url = e.fx.URL
 		reg = registrar{
-			tool:      func(t *mcp.Tool, h handlerT) { s.RegisterTool(t, h) },
-			prompt:    func(p *mcp.Prompt, h promptHT) { s.RegisterPrompt(p, h) },
-			resource:  func(r *mcp.Resource, h resHT) { s.RegisterResource(r, h) },
-			resources: func(r *mcp.Resource, h ressHT) { s.RegisterResources(r, h) },
+			tool:       func(t *mcp.Tool, h handlerT) { s.RegisterTool(t, h) },
+			prompt:     func(p *mcp.Prompt, h promptHT) { s.RegisterPrompt(p, h) },
+			resource:   func(r *mcp.Resource, h resHT) { s.RegisterResource(r, h) },
+			resources:  func(r *mcp.Resource, h ressHT) { s.RegisterResources(r, h) },
+			unregTools: func(names ...string) error { return s.UnregisterTools(names...) },
+			template:   func(t *mcp.ResourceTemplate, h ressHT) { s.RegisterResourceTemplate(t, h) },
 		}
+	}
+	e.reg = reg
+	e.rawSession = ""
+	if e.populate != nil {
+		// a registration history (history.go): the registry is whatever the history made of it so far
+		e.populate(reg)
+		return e.dial(url, stdio)
 	}
 	for _, t := range e.tools {
 		reg.tool(t, func(ctx context.Context, req *mcp.CallToolRequest) (*mcp.CallToolResult, error) {
@@ -190,6 +213,12 @@ func (e *env) connect() error {
 		}
 	}
 
+	return e.dial(url, stdio)
+}
+
+// dial: a fresh client / peer (new session) on the server just built
+func (e *env) dial(url string, stdio *mcp.StdioServer) error {
+	mode := e.mode
 	if mode == "stdio" {
 		e.peer = newStdioPeer(stdio)
 		return nil
@@ -212,6 +241,13 @@ func (e *env) connect() error {
 	}
 	e.cl = cl
 	return nil
+}
+
+func (e *env) promptToGet() string {
+	if e.promptName != "" {
+		return e.promptName
+	}
+	return "echo"
 }
 
 func (e *env) toolName() string {
@@ -270,7 +306,7 @@ func (e *env) callTool() (view any, err error) {
 func (e *env) getPrompt() (view any, err error) {
 	return e.bounded("prompts/get", func() any { return viewPrompt(e.curPrompt) }, promptSize(e.curPrompt), func(ctx context.Context) (any, error) {
 		if e.peer != nil {
-			params := map[string]any{"name": "echo"}
+			params := map[string]any{"name": e.promptToGet()}
 			if e.curArgs != nil {
 				params["arguments"] = e.curArgs
 			}
@@ -288,7 +324,7 @@ func (e *env) getPrompt() (view any, err error) {
 			return viewPrompt(r), nil
 		}
 		req := &mcp.GetPromptRequest{}
-		req.Params.Name = "echo"
+		req.Params.Name = e.promptToGet()
 		if a, ok := e.curArgs.(map[string]string); ok {
 			req.Params.Arguments = a
 		}
@@ -1095,7 +1131,7 @@ func (e *env) listTools() (*mcp.ListToolsResult, error) {
 	for _, t := range e.tools {
 		names = append(names, t.Name)
 	}
-	v, err := e.bounded("tools/list", func() any { return map[string]any{"registered tools": names} }, 0, func(ctx context.Context) (any, error) {
+	v, err := e.bounded("tools/list", func() any { return e.listInput("registered tools", names) }, 0, func(ctx context.Context) (any, error) {
 		if e.peer == nil {
 			return e.cl.ListTools(ctx, &mcp.ListToolsRequest{})
 		}
@@ -1115,12 +1151,19 @@ func (e *env) listTools() (*mcp.ListToolsResult, error) {
 	return r, err
 }
 
+func (e *env) listInput(what string, names []any) any {
+	if e.histInput != nil {
+		return e.histInput()
+	}
+	return map[string]any{what: names}
+}
+
 func (e *env) listPrompts() (*mcp.ListPromptsResult, error) {
 	names := []any{}
 	for _, p := range e.prompts {
 		names = append(names, p.Name)
 	}
-	v, err := e.bounded("prompts/list", func() any { return map[string]any{"registered prompts": names} }, 0, func(ctx context.Context) (any, error) {
+	v, err := e.bounded("prompts/list", func() any { return e.listInput("registered prompts", names) }, 0, func(ctx context.Context) (any, error) {
 		if e.peer == nil {
 			return e.cl.ListPrompts(ctx, &mcp.ListPromptsRequest{})
 		}
@@ -1145,7 +1188,7 @@ func (e *env) listResources() (*mcp.ListResourcesResult, error) {
 	for _, r := range e.resources {
 		names = append(names, r.URI)
 	}
-	v, err := e.bounded("resources/list", func() any { return map[string]any{"registered resources": names} }, 0, func(ctx context.Context) (any, error) {
+	v, err := e.bounded("resources/list", func() any { return e.listInput("registered resources", names) }, 0, func(ctx context.Context) (any, error) {
 		if e.peer == nil {
 			return e.cl.ListResources(ctx, &mcp.ListResourcesRequest{})
 		}
